@@ -23,6 +23,25 @@ CLAIMED = {
                 "Bounded: the listed templates, English (and autodetection for marked templates), fixed-offset zones.",
         "design_ref": "DESIGN.md §3 C01",
     },
+    "C08": {
+        "text": "Kernels (set_correct_day/month_from_settings, get_last_day_of_month) and the public entry "
+                "get_date_data for month-year / year-only / full-date English templates and strptime formats are executed "
+                "symbolically with the year (1-9999), the reference instant (RELATIVE_BASE for the absolute parser, the "
+                "clock stub for the custom-format parser; incl. days 29-31 and Feb 29) and all PREFER_* choices symbolic; "
+                "z3 shows per path that day/month are completed as configured (first / last incl. leap years / reference "
+                "clamped), that stated parts are never altered and that the period is month/year/day/time as stated.",
+        "design_ref": "DESIGN.md §3 C08",
+    },
+    "C09": {
+        "text": "Public entry get_date_data for weekday-only, time-only (UTC and fixed-offset TIMEZONE), month-only, "
+                "day+month and two-digit-year English templates with the reference instant (years 5-9995; 1970-2067 for "
+                "two-digit years), day numbers, HH:MM and YY symbolic, per PREFER_DATES_FROM value: z3 shows per path "
+                "not-after / not-before, nearest occurrence (weekday: 1..7 days; time: same/adjacent day), current_period "
+                "windows and preservation of the named parts. One open known finding (month reset after a weekday/day "
+                "shift that crosses a month boundary) is characterised in known_findings.json; inside its region only the "
+                "correct or the characterised wrong value is accepted.",
+        "design_ref": "DESIGN.md §3 C09",
+    },
 }
 
 NOT_APPLICABLE = {
